@@ -7,7 +7,7 @@ RULE = ("Pool-machine histories (see C03) with mixes of fixed-memory and growing
         "below / equal / above each demand step; after every tick: usage <= allocation per running container, sum of "
         "usage <= capacity, reported pool usage == sum of current usage of running containers (0 for an empty pool), "
         "usage equals the independent model's demand, every failed result justified by own demand > own allocation or "
-        "pool demand > capacity. Non-trivial = usage read after a suspension, or a tick with both a kill and a "
+        "pool demand > capacity; the usage monitor also runs over every tick of generated full simulations under all shipped schedulers. Non-trivial = usage read after a suspension, or a tick with both a kill and a "
         "completion; distinct = sha1 of the case JSON")
 ASSUMPTIONS = [
     "tolerance 1e-6 GB on pool totals (incrementally tracked float sums), 1e-9 relative per container",
@@ -18,7 +18,8 @@ FLOORS = {"had_failure": 0.1, "usage_read_after_suspension": 0.03, "tick_with_su
 
 def plan(tier):
     n = 4000 if tier == "quick" else 120000
-    return [{"kind": "hypothesis", "examples": n}]
+    return [{"kind": "hypothesis", "examples": n},
+            {"kind": "hypothesis", "examples": 1000 if tier == "quick" else 40000, "module": "verif.checks.c04_sim", "shard_base": 100}]
 
 
 def strategy(tier):
@@ -26,5 +27,12 @@ def strategy(tier):
                      machine_spec("long", tier))
 
 
-run_case = make_run_case({"C04", "C11"}, lambda o: "usage_read_after_suspension" in o.labels
+_pool_run_case = make_run_case({"C04", "C11"}, lambda o: "usage_read_after_suspension" in o.labels
                          or "tick_with_success_and_failure" in o.labels)
+
+
+def run_case(spec):
+    if "steps" not in spec:     # a full-simulation case (second part of the plan)
+        from verif.checks import c04_sim
+        return c04_sim.run_case(spec)
+    return _pool_run_case(spec)
